@@ -77,6 +77,16 @@ def freeze(v):
         return tuple(freeze(f) for f in v.fields)
     if isinstance(v, Enum):
         return (v.variant,) + tuple(freeze(f) for f in v.fields)
+    if isinstance(v, MapV):
+        items = []
+        for k in sorted(v.ent):
+            kv, p, val_ = v.ent[k]
+            p = simp(p) if is_z3(p) else p
+            if p is True:
+                items.append((k, freeze(simp(val_) if is_z3(val_) else val_)))
+            elif p is not False:
+                raise Unmodelled('container key with symbolic presence %r' % (v,))
+        return ('map',) + tuple(items)
     raise Unmodelled('non-concrete container key %r' % (v,))
 
 
@@ -909,6 +919,8 @@ def m_deref(ex, m, args, callee):
         return t          # &String -> &str (strings are values)
     if isinstance(t, Arr):
         return r          # &Vec<T> -> &[T]
+    if isinstance(t, Enum) and t.ty == 'Cow':
+        return val(t.fields[0])
     raise Unmodelled('Deref of %r' % (t,))
 
 
@@ -934,6 +946,12 @@ def m_into(ex, m, args, callee):
     if src == dst:
         return args[0]
     return ex.lib.call(ex, None, '<%s as From<%s>>::from' % (dst, src), '<%s as From<%s>>::from' % (dst, src), args)
+
+
+@model(r'^<Cow<.*> as From<.*>>::from$')
+def m_cow_from(ex, m, args, callee):
+    t = val(args[0])
+    return Enum('Cow', 0 if isinstance(args[0], (str, Ref)) else 1, 'Borrowed' if isinstance(args[0], (str, Ref)) else 'Owned', [t])
 
 
 @model(r'^<(.*) as ToOwned>::to_owned$')
@@ -1255,7 +1273,7 @@ def m_int_ops(ex, m, args, callee):
     if k in ('div', 'rem'):
         if not ex.branch(b_not(n_eq(b, 0)), 'int div by zero'):
             ex.panic('attempt to divide by zero')
-        return i_tdiv(a, b) if k == 'div' else i_trem(a, b)
+        return ex.divmod(a, b)[0 if k == 'div' else 1]
     r = {'add': n_add, 'sub': n_sub, 'mul': n_mul}[k](a, b)
     if not ex.branch(in_range(r, ty), 'int %s overflow' % k):
         ex.panic('attempt to %s with overflow' % k)
